@@ -668,8 +668,169 @@ fn sign_and_tamper(m: &mut Message, sign: SignKind, tamper: Option<Tamper>) -> R
 #[allow(dead_code)]
 fn _types(_: BTreeMap<Key, BTreeSet<String>>, _: tsig_ref::TsigView) {}
 
+
+// ------------------------------------------------------------------------------------------
+// part "restart": the transfer policy across restarts.  The zone is started through the real
+// `SqliteZoneHandler::try_from_config` on real files, stopped, and started again on the same
+// journal; after every start unsigned / wrongly keyed / correctly signed AXFR requests arrive.
+
+#[derive(Serialize, Deserialize, Clone, Debug)]
+struct RestartPlan {
+    sim: SimConfig,
+    /// 0 Deny, 1 AllowAll, 2 AllowSigned
+    axfr_policy: u8,
+    /// per start: the signers of the AXFR requests sent after it, and whether a signed UPDATE
+    /// is applied before the stop
+    starts: Vec<(Vec<SignKind>, bool)>,
+}
+
+pub struct RestartPart;
+
+impl Part for RestartPart {
+    fn name(&self) -> &'static str {
+        "restart"
+    }
+    fn runs(&self, tier: Tier) -> u64 {
+        match tier {
+            Tier::Quick => 1_500,
+            Tier::Thorough => 40_000,
+        }
+    }
+    fn block(&self, _t: Tier) -> u64 {
+        16
+    }
+    fn gen(&self, seed: u64, _tier: Tier) -> Value {
+        let mut r = Rng::new(seed);
+        let sim = SimConfig::from_seed(seed);
+        let n = 1 + r.usize_below(3);
+        let starts = (0..n).map(|_| ((0..1 + r.usize_below(3)).map(|_| gen_sign(&mut r)).collect(), r.chance(1, 2))).collect();
+        serde_json::to_value(RestartPlan { sim, axfr_policy: *r.pick(&[0u8, 2, 2, 1]), starts }).unwrap()
+    }
+    fn run(&self, plan: &Value, trace: bool) -> Report {
+        let mut p: RestartPlan = serde_json::from_value(plan.clone()).expect("plan");
+        p.sim.trace = trace;
+        let mut sig = mix(p.axfr_policy as u64 ^ (p.starts.len() as u64) << 4);
+        for (signs, upd) in &p.starts {
+            for s in signs {
+                sig = mix(sig ^ *s as u64);
+            }
+            sig = mix(sig ^ (*upd as u64) << 9);
+        }
+        let tag = mix(p.sim.sched_seed ^ 0xc13);
+        let p2 = p.clone();
+        let out = exec::run(&p.sim, async move { restart_scenario(p2, tag).await });
+        finish(out, sig, p.starts.len() > 1, "C13.stall")
+    }
+    fn shrink(&self, plan: &Value) -> Vec<Value> {
+        let Ok(p) = serde_json::from_value::<RestartPlan>(plan.clone()) else { return vec![] };
+        let mut out = Vec::new();
+        if p.starts.len() > 1 {
+            for i in 0..p.starts.len() {
+                let mut q = p.clone();
+                q.starts.remove(i);
+                out.push(q);
+            }
+        }
+        for i in 0..p.starts.len() {
+            if p.starts[i].0.len() > 1 {
+                let mut q = p.clone();
+                q.starts[i].0.pop();
+                out.push(q);
+            }
+            if p.starts[i].1 {
+                let mut q = p.clone();
+                q.starts[i].1 = false;
+                out.push(q);
+            }
+        }
+        out.into_iter().map(|q| serde_json::to_value(q).unwrap()).collect()
+    }
+    fn describe(&self) -> Describe {
+        Describe {
+            rule: "plan = (transfer policy Deny / AllowAll / AllowSigned; 1-3 starts of the zone through the real try_from_config on real files — the first from the zone file, later ones from the journal the earlier ones left —, optionally a signed UPDATE before each stop; after every start 1-3 AXFR requests from {configured key, none, unknown key, wrong secret, wrong algorithm, second key}); non-trivial = at least one restart; distinct by policy, number of starts and signers".into(),
+            real: vec!["SqliteZoneHandler::try_from_config (both branches: zone file and existing journal)", "Catalog zone transfer path, authorize_axfr, TSIG verification", "Journal on a real SQLite file"],
+            stub: vec!["stop = dropping the handler", "no network: raw request bytes"],
+            assumptions: vec!["files live on tmpfs"],
+        }
+    }
+}
+
+async fn restart_scenario(p: RestartPlan, tag: u64) {
+    use super::update::{start_with_policy, zone_file_text, TempDir};
+    let u = universe();
+    let dir = TempDir::new(tag);
+    let root = dir.0.clone();
+    std::fs::write(root.join("example.com.zone"), zone_file_text(&u, 100)).expect("zone file");
+    std::fs::write(root.join("update.key"), KEY_SECRET).expect("key file");
+    let policy = match p.axfr_policy {
+        0 => AxfrPolicy::Deny,
+        1 => AxfrPolicy::AllowAll,
+        _ => AxfrPolicy::AllowSigned,
+    };
+    let mut next_id = 0x6000u16;
+    for (si, (signs, update_before_stop)) in p.starts.iter().enumerate() {
+        let handler = match start_with_policy(&u, &root, policy).await {
+            Ok(h) => h,
+            Err(e) => {
+                exec::violate("C13.harness", "", format!("start #{si}: {e}"));
+                return;
+            }
+        };
+        exec::count(if si == 0 { "probe.first_start" } else { "fault.restart_on_existing_journal" });
+        let server = Server::new(&u, handler);
+        for sign in signs {
+            next_id = next_id.wrapping_add(1);
+            let mut m = Message::query();
+            m.metadata.id = next_id;
+            m.add_query(Query::new(u.origin.clone(), RecordType::AXFR));
+            let (bytes, _v, _tn) = match sign_and_tamper(&mut m, *sign, None) {
+                Ok(x) => x,
+                Err(e) => {
+                    exec::violate("C13.harness", "", e);
+                    return;
+                }
+            };
+            let resp = match server.handle::<SimTime>(bytes, Protocol::Tcp).await {
+                Ok(r) => r,
+                Err(e) => {
+                    exec::violate("C13.harness", "", e);
+                    return;
+                }
+            };
+            let served = resp.as_ref().and_then(|b| Message::from_vec(b).ok()).map(|m| !m.answers.is_empty()).unwrap_or(false);
+            let may = match p.axfr_policy {
+                0 => false,
+                1 => true,
+                _ => *sign == SignKind::Good,
+            };
+            exec::count(if served { "probe.transfer_served" } else { "probe.transfer_refused" });
+            let pol = ["Deny", "AllowAll", "AllowSigned"][p.axfr_policy as usize % 3];
+            let when = if si == 0 { "first-start" } else { "after-restart" };
+            if served && !may {
+                if exec::violate("C13.unauthenticated-transfer", &format!("{pol}:{sign:?}:{when}"), format!("start #{si}: zone transfer served to a request signed {sign:?} under policy {pol}")) {
+                    return;
+                }
+            }
+            if !served && may {
+                if exec::violate("C13.valid-refused", &format!("axfr:{pol}:{sign:?}:{when}"), format!("start #{si}: a transfer request signed {sign:?} was refused under policy {pol}")) {
+                    return;
+                }
+            }
+        }
+        if *update_before_stop {
+            next_id = next_id.wrapping_add(1);
+            let mut r = Rng::new(tag ^ si as u64);
+            let mut m = build_update_message(&u, next_id, &simple_update(&mut r));
+            if let Ok((bytes, _, _)) = sign_and_tamper(&mut m, SignKind::Good, None) {
+                let _ = server.handle::<SimTime>(bytes, Protocol::Tcp).await;
+            }
+        }
+        drop(server);
+    }
+}
+
 pub fn def() -> CheckDef {
-    CheckDef { id: "C13", level: "exploration", parts: vec![Box::new(C13Part), Box::new(C13Client)] }
+    CheckDef { id: "C13", level: "exploration", parts: vec![Box::new(C13Part), Box::new(C13Client), Box::new(RestartPart)] }
 }
 
 // ==========================================================================================
